@@ -139,7 +139,7 @@ def run(ctx):
         ncalls += len(exp)
     extra["live_seconds"] = round(time.time() - t0, 1)
     t0 = time.time()
-    res = core.coqc_many([(j["name"], shard_text(T, j, tag, j["expected"])) for j in jobs], timeout=900)
+    res = LT.coqc_many_consistent([(j["name"], shard_text(T, j, tag, j["expected"])) for j in jobs], timeout=900)
     extra["coq_seconds"] = round(time.time() - t0, 1)
     for job, (rc, out) in zip(jobs, res):
         p = parse_coq(out) if rc == 0 else None
